@@ -246,6 +246,8 @@ def run(ctx):
                          sim_depth=30, sim_keep=1500 if quick else 20000)),
             (CFG_B, dict(g1_depth=0 if quick else 7, g1_noop_depth=0, sim_num=100 if quick else 1000, sim_depth=26,
                          sim_keep=1000 if quick else 15000))]
+    if quick:
+        plan = plan[:1]          # quick: three peers and the tight window are covered by configuration M (added below)
     if not quick:
         plan.append((CFG_C, dict(g1_depth=6, g1_noop_depth=0, sim_num=1000, sim_depth=36, sim_keep=15000)))
     plan.append((CFG_M, dict(g1_depth=0, g1_noop_depth=0, sim_num=100 if quick else 1000, sim_depth=26, sim_keep=1000 if quick else 15000)))
@@ -493,7 +495,7 @@ def loop_stage(ctx):
         runs = [(code, ps, 4, 2) for code in (0, 1, 10, 11, 100, 101, 110, 111, 1000, 1001, 1010, 1011, 1100, 1101, 1110, 1111) for ps in ('"p1", "p2"',)]
         runs += [(code, '"p1"', 4, 2) for code in (0, 1000, 1100, 1110)]
         runs += [(10001, '"p1", "p2"', 5, 3), (11000, '"p1"', 5, 3), (10010, '"p1", "p2"', 5, 2)]
-    runs += [(1111, '"p1"', 4, 3, 3), (11011, '"p1", "p2"', 5, 3, 3)]      # requests of three items: the slow-once time-out of an honest peer
+    runs += [(11011, '"p1", "p2"', 5, 3, 3)] + ([] if quick else [(1111, '"p1"', 4, 3, 3)])      # requests of three items: the slow-once time-out of an honest peer
     for run in runs:
         code, ps, n, w = run[:4]
         c = dict(name="L", N=n, body=code, W=w, maxp=2, peers=2, maxc=run[4] if len(run) > 4 else 2)
